@@ -164,6 +164,13 @@ StmtProds(l) ==
                     T("case"), T("E2"), T(":"), N(IF l THEN "Sl" ELSE "S"), T("break"), T(";"), T("}")>>),
     Pr("switch3", <<T("switch"), T("("), N("R"), T(")"), T("{"), T("default"), T(":"), N(IF l THEN "Sl" ELSE "S"), T("break"), T(";"),
                     T("case"), T("3"), T("+"), T("4"), T(":"), T("{"), N(IF l THEN "Bl" ELSE "B"), T("}"), T("}")>>),
+    \* runs of three and four labels followed by several statements (every statement belongs to the LAST label of the run)
+    Pr("switch4", <<T("switch"), T("("), N("R"), T(")"), T("{"), T("case"), T("1"), T(":"), T("case"), T("2"), T(":"), T("case"), T("3"), T(":"),
+                    N(IF l THEN "Sl" ELSE "S"), N(IF l THEN "Sl" ELSE "S"), T("break"), T(";"), T("case"), T("5"), T(":"), N(IF l THEN "Sl" ELSE "S"), T("}")>>),
+    Pr("switch5", <<T("switch"), T("("), N("R"), T(")"), T("{"), T("case"), T("1"), T(":"), T("default"), T(":"), T("case"), T("3"), T(":"), T("case"), T("E2"), T(":"),
+                    N(IF l THEN "Sl" ELSE "S"), N("R"), T(";"), N(IF l THEN "Sl" ELSE "S"), T("}")>>),
+    Pr("switch_nested", <<T("switch"), T("("), N("R"), T(")"), T("{"), T("case"), T("1"), T(":"), N(IF l THEN "Sl" ELSE "S"),
+                          T("switch"), T("("), N("R"), T(")"), N("R"), T(";"), N(IF l THEN "Sl" ELSE "S"), T("break"), T(";"), T("}")>>),
     Pr("gotolabel", <<T("{"), T("if"), T("("), N("R"), T(")"), T("goto"), U("L"), T(";"), N("R"), T(";"), U("=L"), T(":"), N(IF l THEN "Sl" ELSE "S"), T("}")>>),
     Pr("return", <<T("return"), N("R"), T(";")>>) }
   \cup { Pr("lab:" \o c \o ":" \o k, Ctl(c, k)) : c \in Ctls, k \in Kinds }
